@@ -23,6 +23,7 @@ def run_task(prog, tid, params, tier):
     if len(cands) != 1:
         raise Unsupported("cannot resolve %s::parse" % t)
     f = cands[0]
+    name_parse_fns = [g_ for tr, g_ in prog.methods.get(('Name', 'parse'), []) if (tr or '').startswith('WireFormat')]
     syms = X.sym_bytes('b', L)
     pos0 = sym('pos', 'usize')
     stats = {}
@@ -35,6 +36,10 @@ def run_task(prog, tid, params, tier):
         I.ctx.assume(z3.ULT(pos0.z(), L))
         cell = Cell(pos0, 'pos')
         I.poscell = cell
+        # Name::parse may legally re-read labels through a backwards pointer cycle until its 255-octet budget is used up
+        # (<= 128 label steps + pointer hops between them); its termination is decided by C01.name.step / C01.name.run
+        for fn_ in name_parse_fns:
+            I.loop_bound_for[fn_] = 300
         return I.call_function(f, [buf, Ref(cell)], {})
 
     def on_path(res):
@@ -44,6 +49,17 @@ def run_task(prog, tid, params, tier):
             p = m.eval(pos0.z(), model_completion=True).as_long()
             return {'status': 'violation', 'role': 'panic', 'detail': '%s::parse panics: %s' % (t, res.msg),
                     'cex': {'entry': 'rdata_parse', 'type': t, 'bytes': bs, 'pos': p, 'expect': {'outcome': 'panic'}}}
+        if res.kind == 'bound' and res.interp.bound_fn in name_parse_fns:
+            stats['truncated'] = 'Name::parse loop bound'
+            return None
+        if res.kind == 'bound':
+            # every iteration of these loops consumes at least one byte of the <= L-byte RDATA on a terminating run, and
+            # Name::parse makes at most L label / pointer steps: N = 2L+4 iterations of one loop means the cursor stopped moving
+            m = res.ctx.model()
+            bs = X.model_bytes(m, syms)
+            p = m.eval(pos0.z(), model_completion=True).as_long()
+            return {'status': 'violation', 'role': 'hang', 'detail': '%s::parse: a loop runs %d times over %d bytes of RDATA (no progress): %s' % (t, N, L, res.msg),
+                    'cex': {'entry': 'rdata_parse', 'type': t, 'bytes': bs, 'pos': p, 'expect': {'outcome': 'hang'}}}
         if res.kind != 'return':
             return None
         r = res.value
@@ -51,7 +67,7 @@ def run_task(prog, tid, params, tier):
         if r.var == 'Ok':
             pos = res.interp.poscell.v
             if res.ctx.check(z3.Or(z3.UGT(pos.z(), L), z3.ULT(pos.z(), pos0.z()))):
-                m = res.ctx.solver.model()
+                m = res.ctx.model()
                 bs = X.model_bytes(m, syms)
                 p = m.eval(pos0.z(), model_completion=True).as_long()
                 return {'status': 'violation', 'role': 'cursor', 'detail': '%s::parse leaves the cursor outside the RDATA' % t,
